@@ -33,11 +33,11 @@ pub fn run(ctx: &Ctx, rec: &mut Recorder) -> Result<(), String> {
     std::fs::create_dir_all(&dir).map_err(|e| e.to_string())?;
     let mut f = std::io::BufWriter::new(std::fs::File::create(dir.join(format!("cases-{}.jsonl", ctx.shard))).map_err(|e| e.to_string())?);
     let (nprog, rich, classes, cfg_sample, enc_mode): (u64, bool, Vec<&str>, usize, &str) = match flavor.as_str() {
-        "c02" => (ctx.qt(16, 600), true, vec!["ascii", "delims", "latin1"], 32, "none"),
-        "c03" => (ctx.qt(16, 600), true, vec!["ascii", "delims", "latin1", "cp1252", "bmp", "astral", "controls"], 32, "some"),
-        "c05" => (ctx.qt(24, 1500), true, vec!["ascii", "delims", "latin1", "bmp"], 4, "all"),
-        "c10" => (ctx.qt(250, 15000), true, vec!["ascii", "delims", "latin1", "cp1252", "bmp", "astral", "controls", "bomlike"], 3, "none"),
-        "c28" => (ctx.qt(300, 20000), true, vec!["ascii"], 3, "none"),
+        "c02" => (ctx.qt(16, 60), true, vec!["ascii", "delims", "latin1"], 32, "none"),
+        "c03" => (ctx.qt(16, 60), true, vec!["ascii", "delims", "latin1", "cp1252", "bmp", "astral", "controls"], 32, "some"),
+        "c05" => (ctx.qt(24, 150), true, vec!["ascii", "delims", "latin1", "bmp"], 4, "all"),
+        "c10" => (ctx.qt(250, 4000), true, vec!["ascii", "delims", "latin1", "cp1252", "bmp", "astral", "controls", "bomlike"], 3, "none"),
+        "c28" => (ctx.qt(300, 6000), true, vec!["ascii"], 3, "none"),
         other => return Err(format!("unknown DOC flavor {other}")),
     };
     let all_cfgs = docgen::configs();
@@ -75,7 +75,7 @@ pub fn run(ctx: &Ctx, rec: &mut Recorder) -> Result<(), String> {
             // (encrypted files with object streams are read by the library through its recovery
             // path at 10-30 CPU-seconds per open — a finding of its own — so only a few programs
             // include such a configuration)
-            let mut seen_os = (flavor == "c05" && pno >= ctx.qt(2, 40)) || ((flavor == "c10" || flavor == "c28") && pno >= ctx.qt(6, 200));
+            let mut seen_os = (flavor == "c05" && pno >= ctx.qt(2, 6)) || ((flavor == "c10" || flavor == "c28") && pno >= ctx.qt(6, 40));
             cfgs.retain(|i| {
                 if all_cfgs[*i].1.use_object_streams {
                     if seen_os {
